@@ -1,6 +1,7 @@
 from __future__ import annotations
 
 import builtins
+import enum
 import io
 import json
 import operator
@@ -450,7 +451,12 @@ def object_get_state(obj: Any, save_context: SaveContext) -> dict[str, Any]:
     if cls.__module__ == "builtins" and getattr(builtins, cls.__name__, None) is not cls:
         raise UnsupportedTypeException(obj)
 
-    reduce_output = obj.__reduce__()
+    if isinstance(obj, enum.Enum):
+        # members are found again by value: Color(1) is Color.RED, whereas
+        # cls.__new__(cls) without a value is an error
+        reduce_output = (type(obj), (obj.value,))
+    else:
+        reduce_output = obj.__reduce__()
     if any(item is not None for item in reduce_output[3:]):
         # the pickle protocol hands over list/dict items (e.g. collections.deque)
         # that neither __getstate__ nor __dict__ contain: they would be lost
